@@ -9,14 +9,42 @@ STUBS = ['_dispatch_calloc', 'calloc', 'malloc', 'realloc', 'free', '_os_object_
 ICALL = ['_dispatch_data_dispose', '_dispatch_xref_dispose', '_dispatch_dispose', '___dispatch_data_flatten_block_invoke', '___dispatch_transform_*_block_invoke*', '_dispatch_transform_from_base32', '_dispatch_transform_to_base32',
          '_dispatch_transform_from_base32hex', '_dispatch_transform_to_base32hex', '_dispatch_transform_from_base64', '_dispatch_transform_to_base64', '_dispatch_transform_from_utf16le', '_dispatch_transform_to_utf16le', '_dispatch_transform_from_utf16be', '_dispatch_transform_to_utf16be', '_dispatch_transform_to_utf8_without_bom']
 FN = {0: 'base32', 1: 'base32hex', 2: 'base64', 3: 'utf16le', 4: 'utf16be'}
-def TR(mode, fmt, n, split=0, split2=0, tiers=('quick', 'thorough'), timeout=900):
-    return H('TR_%s_%s_n%d%s%s' % ({0: 'dec', 1: 'rt', 2: 'enc', 3: 'utf'}[mode], FN[fmt], n, ('_s%d' % split) if split else '', ('_r%d' % split2) if split2 else ''), 'h_tr.c', ENT, stubs=STUBS, icall_only=ICALL,
-             noglobal=['_dispatch_queue_attrs', '_dispatch_mgr_q', '_dispatch_root_queues', '_dispatch_pthread_root_queue_contexts'], nt=1, heap=7936, pagewords=64, defines=['-DMODE=%d' % mode, '-DFMT=%d' % fmt, '-DN=%d' % n, '-DSPLIT=%d' % split, '-DSPLIT2=%d' % split2], probes=ST_PROBES,
-             unwind=30, timeout=timeout, tiers=tiers, mem_gb=20, paths=(mode in (0, 3)), mode=('stop' if mode in (0, 3) else 'all'), witness=('twin' if mode in (0, 3) else 'inline'), witness_any=True,
-             note='%s %s, %d symbolic input bytes%s%s' % ({0: 'decode of arbitrary text from', 1: 'round trip through', 2: 'real encoder vs reference decoder,', 3: 'well-formed UTF-8 round trip through'}[mode], FN[fmt], n, (', input split after %d bytes' % split) if split else '', (', encoded text split after %d characters' % split2) if split2 else ''))
+def TR(mode, fmt, n, split=0, split2=0, tiers=('quick', 'thorough'), timeout=900, text=None, symmask=0):
+    return H('TR_%s_%s_n%d%s%s%s' % ({0: 'dec', 1: 'rt', 2: 'enc', 3: 'utf', 4: 'decv'}[mode], FN[fmt], n, ('_s%d' % split) if split else '', ('_r%d' % split2) if split2 else '', ('_%s_m%x' % (text.replace('=', '-'), symmask)) if text else ''), 'h_tr.c', ENT, stubs=STUBS, icall_only=ICALL,
+             noglobal=['_dispatch_queue_attrs', '_dispatch_mgr_q', '_dispatch_root_queues', '_dispatch_pthread_root_queue_contexts'], nt=1, heap=7936, pagewords=64, defines=['-DMODE=%d' % mode, '-DFMT=%d' % fmt, '-DN=%d' % n, '-DSPLIT=%d' % split, '-DSPLIT2=%d' % split2] + (['-DTEXT="%s"' % text, '-DSYMMASK=%d' % symmask] if text else []), probes=ST_PROBES,
+             unwind=30, timeout=timeout, tiers=tiers, mem_gb=20, paths=(mode in (0, 3, 4)), mode=('stop' if mode in (0, 3, 4) else 'all'), witness=('twin' if mode in (0, 3, 4) else 'inline'), witness_any=True,
+             note='%s %s, %d symbolic input bytes%s%s' % ({0: 'decode of arbitrary text from', 1: 'round trip through', 2: 'real encoder vs reference decoder,', 3: 'well-formed UTF-8 round trip through', 4: 'real decoder vs reference decoder on a valid text%s of' % ((' "%s" (symbolic alphabet characters at mask 0x%x)' % (text, symmask)) if text else '')}[mode], FN[fmt], n, (', input split after %d bytes' % split) if split else '', (', encoded text split after %d characters' % split2) if split2 else ''))
 HARNESSES = [TR(0, f, 1) for f in (0, 2)] + [TR(0, 1, 1, tiers=('thorough',))] + [TR(0, f, 2, tiers=('thorough',), timeout=3000) for f in (0, 1, 2)]
 HARNESSES += [TR(2, f, n, split=sp) for f in (0, 1, 2) for n in (1, 2, 3, 5) for sp in ((0, 1) if n > 1 else (0,))] + [TR(2, f, n, split=sp, tiers=('thorough',)) for f in (0, 1, 2) for n in (4, 6) for sp in (0, 2, 3)]
 HARNESSES += [TR(0, 2, 4, split=2, tiers=('thorough',), timeout=3000)]
+# MODE 4: the real decoder on VALID texts (whole groups incl. every RFC 4648 padding length), two adjacent characters symbolic over the whole alphabet, text unsplit and split between them
+VT = {0: ['MZXW6YTB', 'MY======', 'MZXQ====', 'MZXW6===', 'MZXW6YQ='], 1: ['CPNMUOJ1', 'CO======', 'CPNG====', 'CPNMU===', 'CPNMUOG='], 2: ['Zm9v', 'Zg==', 'Zm8=']}
+def _decv():
+    hs = []
+    for f, texts in VT.items():
+        full = texts[0]; g = len(full)
+        Q = ('quick', 'thorough'); T = ('thorough',)
+        # quick: one symbolic alphabet character at a time (every other character of the text concrete): inside a group that is split right after it, at the end of an unsplit group,
+        # in the shortest padded text, and at the start of the second group of a two-group text split inside that group
+        hs.append(TR(4, f, g, split=2, text=full, symmask=1 << 1, tiers=Q))
+        hs.append(TR(4, f, g, split=0, text=full, symmask=1 << (g - 1), tiers=Q))
+        hs.append(TR(4, f, g, split=0, text=texts[1], symmask=1 << 0, tiers=Q))
+        hs.append(TR(4, f, 2 * g, split=g + 1, text=full + texts[-1], symmask=1 << g, tiers=Q))
+        nd1 = len(texts[1].rstrip('='))
+        hs.append(TR(4, f, 2 * g, split=2 * g - 1, text=full + texts[1], symmask=1 << (g - 1), tiers=Q))     # split INSIDE the padding of the last group (before its last character)
+        hs.append(TR(4, f, g, split=nd1 + 1, text=texts[1], symmask=1 << 1, tiers=Q))                          # ... and right after its first padding character
+        # thorough: every position of every text (all padding lengths), unsplit and split after the symbolic character; and two adjacent symbolic characters with the split between them
+        for t in texts:
+            nd = len(t.rstrip('='))
+            for p in range(nd):
+                for sp in (0, p + 1):
+                    if sp < len(t): hs.append(TR(4, f, len(t), split=sp, text=t, symmask=1 << p, tiers=T, timeout=1800))
+            for p in range(nd - 1):
+                hs.append(TR(4, f, len(t), split=p + 1, text=t, symmask=3 << p, tiers=T, timeout=3000))
+            for sp in range(nd + 1, len(t)):     # every split inside the padding
+                hs.append(TR(4, f, len(t), split=sp, text=t, symmask=1 << (nd - 1), tiers=T, timeout=1800))
+    return hs
+HARNESSES += _decv()
 # MODE 3 (UTF-8 <-> UTF-16 round trip, h_tr.c) is NOT registered: measured dead end (path mode: every range test on the decoded character forks, infeasible forks are not pruned -> 2^14 paths per character,
 # no verdict in 15 min for ONE character; merged mode: pointer advance depends on the bytes -> symbolic addresses, symbolic execution does not finish in 10 min for one character).  See DESIGN section 3.
 ASSUMPTIONS = ['input length and fragmentation fixed per query (bytes symbolic); allocation never fails; every heap access checked against the harness object table',
